@@ -573,6 +573,11 @@ class FuncAnalyzer:
             e2 = self.block(s.orelse, dict(env))
             env.clear()
             env.update(self.join_env(e1, e2))
+            # the same guard written as an early exit: `if len(Q) <= 1: ...; return` leaves len(Q) >= 2 for the statements that follow
+            if not s.orelse and s.body and isinstance(s.body[-1], (ast.Return, ast.Raise)) and isinstance(s.test, ast.Compare) and isinstance(s.test.left, ast.Call) \
+                    and s.test.left.args and isinstance(s.test.left.args[0], ast.Name) and unparse(s.test.left.func) == "len" \
+                    and tt in (f"len({s.test.left.args[0].id})<=1", f"len({s.test.left.args[0].id})<2", f"len({s.test.left.args[0].id})==1"):
+                self.multi.add(s.test.left.args[0].id)
             return
         if isinstance(s, (ast.For, ast.AsyncFor)):
             # `for _ in range(min(<batchsize>, len(Q))): L.append(Q.popleft())` while len(Q) >= 2 is known (reduction-queue idiom) and the
@@ -656,6 +661,17 @@ class FuncAnalyzer:
         if qname is not None:
             self.appended[qname] = EMPTY
             self.qloops.add(qname)
+            # `n = min(<batchsize>, len(Q)); L = [Q.popleft() for _ in range(n)]` (or the bound inlined): the batch holds at least two elements
+            binds = {unparse(st.targets[0]): unparse(st.value).replace(" ", "") for st in s.body if isinstance(st, ast.Assign) and len(st.targets) == 1 and isinstance(st.targets[0], ast.Name)}
+            for st in s.body:
+                if isinstance(st, ast.Assign) and len(st.targets) == 1 and isinstance(st.targets[0], ast.Name) and isinstance(st.value, ast.ListComp) and len(st.value.generators) == 1 \
+                        and not st.value.generators[0].ifs and unparse(st.value.elt).replace(" ", "") in (f"{qname}.popleft()", f"{qname}.pop()", f"{qname}.pop(0)"):
+                    it_ = unparse(st.value.generators[0].iter).replace(" ", "")
+                    if it_.startswith("range(") and it_.endswith(")"):
+                        bound = it_[len("range("):-1]
+                        bound = binds.get(bound, bound)
+                        if bound.startswith("min(") and bound.endswith(f",len({qname}))") and self.default_at_least_2(bound[len("min("):-len(f",len({qname}))")]):
+                            self.min2_comp = getattr(self, "min2_comp", set()) | {st.targets[0].id}
         self.breaks.append([])
         for _ in range(6):
             before = {k: v for k, v in env.items()}
@@ -690,6 +706,8 @@ class FuncAnalyzer:
         if isinstance(t, ast.Name):
             env[t.id] = v
             self.min2.discard(t.id)
+            if t.id in getattr(self, "min2_comp", ()) and isinstance(stmt, ast.Assign) and isinstance(stmt.value, ast.ListComp):
+                self.min2.add(t.id)          # the batch comprehension of the reduction-queue idiom (recognised at the loop head)
             return
         if isinstance(t, (ast.Tuple, ast.List)):
             if v.elts is not None and len(v.elts) == len(t.elts) and not any(isinstance(x, ast.Starred) for x in t.elts):
